@@ -363,3 +363,50 @@ func c02Witnesses() []*xnode {
 		bin("mult", bin("plus", id(), id(), false, false), bin("plus", id(), id(), false, false), false, false),
 	}
 }
+
+// runC02Ctx (tool mode "c02ctx", used by tools/gen_c02_known.py only): every pair tree inside every one-level
+// context, to demonstrate site classes that are harmless on their own but not below another operator
+func runC02Ctx(out io.Writer) {
+	enc := json.NewEncoder(out)
+	d := &dump.Dumper{AnyID: anyID}
+	id := 0
+	one := func(t *xnode) {
+		b := &c02Builder{}
+		e, shape := b.build(t)
+		c := c02Case{Case: Case{ID: id, Gen: "context", Type: "c02." + t.kind, Prog: shape}, Shape: shape}
+		id++
+		c.Dump = d.Value(e)
+		c.Binds = []string{}
+		c.Renders = append(c.Renders, render(e, true, false, nil), render(e, false, false, nil))
+		enc.Encode(c)
+	}
+	mk := func(kind string) *xnode {
+		n := &xnode{kind: kind, kids: make([]*xnode, arity(kind)), wrap: make([]bool, arity(kind))}
+		for i := range n.kids {
+			n.kids[i] = atomNode("ident")
+		}
+		return n
+	}
+	allOps := append(append([]string{}, c02BinAll...), c02UnAll...)
+	for _, pk := range allOps {
+		for pos := 0; pos < arity(pk); pos++ {
+			for _, wrap := range []bool{false, true} {
+				for _, ck := range allOps {
+					pair := func() *xnode {
+						n := mk(pk)
+						n.kids[pos] = mk(ck)
+						n.wrap[pos] = wrap
+						return n
+					}
+					for _, ctx := range allOps {
+						for cpos := 0; cpos < arity(ctx); cpos++ {
+							c := mk(ctx)
+							c.kids[cpos] = pair()
+							one(c)
+						}
+					}
+				}
+			}
+		}
+	}
+}
